@@ -269,8 +269,19 @@ def gen_system_op(rng, spec):
     return op
 
 
+def gen_project_case(rng):
+    return dict(kind='project', spec=dict(n=0, kind='project', mesh=rng.choice(['line', 'quad']), nelems=rng.choice([1, 2, 3, 4]), degree=rng.choice([1, 2]), btype=rng.choice(['std', 'spline', 'discont'])),
+                ops=[dict(op='project', where=rng.choice(['domain', 'boundary', 'left']), ptype='lsqr', fun=rng.choice(['x', 'x2', 'one', 'zero']), atol=rng.choice([0., 0., 1e-10, 1e-6]),
+                          solver=rng.choice(['arnoldi', 'direct']), exact_boundaries=rng.random() < 0.2) for _ in range(rng.choice([1, 2, 3]))], faults={})
+
+
 def gen_case(rng, index, tier):
     r = rng.random()
+    if r < 0.05:
+        case = gen_project_case(rng)
+        if rng.random() < 0.5:
+            case['faults'] = gen_faults(rng, ncalls_hint=rng.choice([2, 4]))
+        return case
     if r < 0.55:
         spec = gen_matrix_spec(rng, rng.choice([16, 24]) if tier == 'thorough' and rng.random() < 0.15 else None)
         ops = [gen_solve_op(rng, spec['n']) for _ in range(rng.choice([1, 2, 3, 4, 6] + ([10] if tier == 'thorough' else [])))]
@@ -817,6 +828,58 @@ def _do_constraints(system, spec, op, constrain, cmask, cvals):
     return None, 'return'
 
 
+def run_project(case, B):
+    '''Topology.project (least squares): the returned constraint vector solves the normal equations on the supported dofs and is NaN elsewhere.'''
+    from nutils import matrix, mesh, function
+    spec = case['spec']
+    log = []
+    with matrix.backend(B):
+        if spec['mesh'] == 'line':
+            topo, geom = mesh.rectilinear([spec['nelems']])
+            x = geom[0]
+        else:
+            topo, geom = mesh.rectilinear([spec['nelems'], 2])
+            x = geom[0]
+        basis = topo.basis(spec['btype'], degree=spec['degree'])
+        n = len(basis)
+        for oi, op in enumerate(case['ops']):
+            dom = topo if op['where'] == 'domain' else topo.boundary if op['where'] == 'boundary' else topo.boundary['left']
+            fun = {'x': x, 'x2': x * x + 1., 'one': function.Array.cast(1.) + 0 * x, 'zero': 0 * x}[op['fun']]
+            deg = 2 * spec['degree'] + 2
+            fired0 = dict(PLAN.fired)
+            reached0 = PLAN.reached
+            kw = dict(solver=op['solver'])
+            if op['atol']:
+                kw['atol'] = op['atol']
+            try:
+                cons = dom.project(fun, onto=basis, geometry=geom, degree=deg, ptype='lsqr', **kw)
+                outcome = 'return'
+            except Exception as e:
+                outcome = 'raise:' + type(e).__name__
+                log.append(('project', op['where'], outcome, PLAN.reached - reached0))
+                if not _is_ok_exc(e):
+                    return 'E-unexpected-exception', f'op {oi}: Topology.project raised {type(e).__name__}: {str(e)[:200]}', log
+                continue
+            log.append(('project', op['where'], outcome, PLAN.reached - reached0))
+            u = numpy.asarray(cons, dtype=float)
+            # independent dense normal equations
+            J = function.J(geom)
+            A, b = dom.integrate([basis[:, numpy.newaxis] * basis * J, basis * fun * J], degree=deg)
+            A = numpy.asarray(A.export('dense') if hasattr(A, 'export') else A)
+            N = (abs(A) > 1e-12).any(axis=1)
+            if numpy.isinf(u).any() or (numpy.isnan(u) != ~N).any():
+                return 'R-droptol-pattern', f'op {oi}: project left NaN at {numpy.flatnonzero(numpy.isnan(u)).tolist()} but the dofs without support are {numpy.flatnonzero(~N).tolist()}', log
+            r = (b - A[:, N] @ u[N])[N]
+            res = float(numpy.linalg.norm(r))
+            faulted = PLAN.fired != fired0
+            scale = float(numpy.linalg.norm(A, 2)) * float(numpy.linalg.norm(u[N])) + float(numpy.linalg.norm(b))
+            if op['atol'] and not res <= op['atol'] * (1 + 1e-9) + 64 * numpy.finfo(float).eps * scale * n:
+                return 'R-tolerance-not-met', f'op {oi}: projection returned with residual {res:.3e} of the normal equations > atol {op["atol"]}', log
+            if not op['atol'] and not faulted and not res <= 1e-8 * scale + 1e-300:
+                return 'R-machine-precision', f'op {oi}: projection on an honest back end left residual {res:.3e} (scale {scale:.3e})', log
+    return None, None, log
+
+
 def worker_init():
     import nutils.solver, nutils.matrix, nutils.function
     _pywarnings.simplefilter('ignore')
@@ -850,6 +913,8 @@ def run_case(case):
     with treelog.set(_RetryLog()):
         if case['kind'] == 'matrix':
             vclass, detail, log = run_matrix(case, B)
+        elif case['kind'] == 'project':
+            vclass, detail, log = run_project(case, B)
         else:
             vclass, detail, log = run_system(case, B)
     sig = core.sha([case['kind'], [(l[0], l[1], l[2]) for l in log], sorted(PLAN.fired), [tuple(sorted((k, str(v)) for k, v in op.items() if k not in ('vseed', 'cmask', 'rmask'))) for op in case['ops']], case['spec'].get('cond') or case['spec'].get('kind'), case['spec']['n']])
